@@ -298,7 +298,9 @@ export function shapeOfNode(n) {
 
 export const TAGS = ['view', 'div', 'span', 'x-a', 'a', 'b1', 'text', 'cover-view']
 export const TEXT_POOL = ['hello', ' x ', 'a b', '1', '<', '>', '&', '"', "'", 'é', '漢字', '😀', '{', '}', 'a<b', 'x&y', ' ', '-', 'A', '}}', '{ {', 'tab\there', 'nl\nhere', '&amp;', 'a < b', '</', '<!', '\u00a0', '\u3000x']
-export const ATTR_NAMES = ['title', 'value', 'a-b', 'foo', 'x_y', 'hover-class', 'src', 'n1', 'a.b', 'bindtap', 'catchtouch', 'ontap']
+export const ATTR_NAMES = ['title', 'value', 'a-b', 'foo', 'x_y', 'hover-class', 'src', 'n1', 'a.b', 'bindtap', 'catchtouch', 'ontap', 'col-2', 'once']
+/** declared (any-typed) properties of `<x-a>` when it is instantiated as a real component (rt.mjs: opts.propComponents) */
+export const PROP_COMPONENT_PROPS = ['title', 'value', 'aB', 'foo', 'x_y', 'hoverClass', 'src', 'n1', 'col2', 'once', 'style']
 const DATA_NAMES = ['foo', 'a-b', 'x1', 'foo-bar-baz']
 const EVENT_NAMES = ['tap', 'touchstart', 'my-event', 'a_b']
 
